@@ -110,6 +110,12 @@ class Check:
             # the tree under test raised on an input the harness considers valid (see vlib/pool.py)
             self.violation("impl-exception", {"message": str(msg)[:2000]}, key={"site": m.group(1), "exc": m.group(2)})
             self.finish()
+        if self.violations:
+            # violations of the property were already established on this tree: they are the verdict; a later step of the
+            # harness that cannot complete on such a tree (e.g. a demonstration built from its recorded traces) is noted
+            print("NOTE property=%s: later harness step did not complete on the violating tree: %s" % (self.pid, str(msg)[:600]), flush=True)
+            self.extra["incomplete_step_after_violations"] = str(msg)[:600]
+            self.finish()
         print("MACHINERY-FAILURE property=%s: %s" % (self.pid, msg), file=sys.stderr, flush=True)
         self.write_evidence(status="machinery_failure")
         sys.exit(2)
